@@ -15,7 +15,8 @@
    Deviation switch: FirstSampleGuard = FALSE is the pinned code (a trigger on the first searchable sample may
    be shifted to one sample earlier, giving a record that starts at index -1).  *)
 EXTENDS Integers, Sequences, FiniteSets, TLC
-CONSTANTS NPre, NSamp, Threshold, NMono, Mode, MaxLen, BlockSizes, MaxEdges, KeepN, ZFirst, ZAll, FirstSampleGuard
+CONSTANTS NPre, NSamp, Threshold, NMono, Mode, MaxLen, BlockSizes, MaxEdges, KeepN, ZFirst, ZAll, FirstSampleGuard,
+          PairWindow   \* two edges placed in the same block are at most this far apart (bounds the branching)
 \* Mode: "two" | "var" | "iso"
 VARIABLES truth, buf, bufFirst, nfi, t, u, v, recs, crashed, level, edgesLeft, act
 vars == <<truth, buf, bufFirst, nfi, t, u, v, recs, crashed, level, edgesLeft, act>>
@@ -27,7 +28,8 @@ Init == /\ truth = <<>> /\ buf = <<>> /\ bufFirst = 0 /\ nfi = 0 /\ t = 0 /\ u =
         /\ recs = <<>> /\ crashed = FALSE /\ level = 1000 /\ edgesLeft = MaxEdges /\ act = [a |-> "Init"]
 
 \* signal generator: each edge is a jump of +Threshold that lasts (staircase)
-Places(b, k) == {{}} \cup (IF k >= 1 THEN {{p} : p \in 1..b} ELSE {}) \cup (IF k >= 2 THEN {{p, q} : p \in 1..b, q \in 1..b} ELSE {})
+Places(b, k) == {{}} \cup (IF k >= 1 THEN {{p} : p \in 1..b} ELSE {})
+                \cup (IF k >= 2 THEN UNION {{{p, q} : q \in p..(IF p + PairWindow < b THEN p + PairWindow ELSE b)} : p \in 1..b} ELSE {})
 RECURSIVE Gen(_, _, _, _)
 Gen(b, S, lv, i) == IF i > b THEN <<>> ELSE
    LET nl == IF i \in S THEN lv + Threshold ELSE lv IN <<nl>> \o Gen(b, S, nl, i + 1)
